@@ -30,10 +30,13 @@ class Mon:
         self.unspec = 0
         self.viols = []
         self.counts = collections.Counter()
+        self.tokens = set()
 
     def expect(self, ok, symptom, detail, what):
         self.n += 1
         self.counts[what] += 1
+        # distinct judged questions (the detail text names object, method and input)
+        self.tokens.add(hash(detail))
         if not ok:
             self.viols.append({'symptom': symptom, 'detail': detail})
 
@@ -952,7 +955,7 @@ def run_shard(ctx):
         'evaluations': M.n, 'cases': ncases, 'keys': sorted(keys), 'violations': viols, 'viol_counts': dict(nviol),
         'other_property_violations': {}, 'stats': {'judged': M.n, 'unspecified': M.unspec}, 'by_op': dict(M.counts), 'samples': samples,
         'monitor_errors': [], 'timeouts': 0, 'truncated': truncated,
-        'extra': {'distinct_nontrivial': 0},
+        'extra': {'distinct_nontrivial': 0, 'distinct_judged_questions': len(M.tokens)},
     }
 
 
